@@ -262,6 +262,18 @@ func runRT(cfg vsched.Config, sc *RTScn, twice bool) *RTResult {
 			spec.Enabled = false
 		case "closed":
 			nolisten = true
+		case "empty-sack-option", "half-sack-block":
+			form := map[string]string{"empty-sack-option": "sack0", "half-sack-block": "sackHalf"}[sc.Capability]
+			for _, s := range scns {
+				if s.Variant == "sack" {
+					s.Hops = map[int]HopSpec{}
+					for t := 1; t <= 255; t++ {
+						if sc.Dest > 0 && t >= sc.Dest {
+							s.Hops[t] = HopSpec{Form: form}
+						}
+					}
+				}
+			}
 		case "plain-acks":
 			for _, s := range scns {
 				if s.Variant == "sack" {
